@@ -223,7 +223,11 @@ def make_spec(recipe):
         pcols = []
         for rc in recipe["columns"]:
             u = recipe["pandas_units"].get(rc["name"])
+            if u == "omit":
+                continue        # (a column the pandas metadata does not list, e.g. an unnamed index as arrow records it)
             if u is None:
+                if rc["type"] == "f64":
+                    pcols.append({"name": rc["name"], "field_name": rc["name"], "pandas_type": "float64", "numpy_type": "float64", "metadata": None})
                 continue
             td = rc["type"].startswith("time_")
             pcols.append({"name": rc["name"], "field_name": rc["name"], "pandas_type": "timedelta" if td else "datetime",
